@@ -46,6 +46,7 @@ def merge(results):
         agg["evals"] += int(r.get("evals", 0))
         agg["inconclusive_cases"] += int(r.get("inconclusive", 0))
         agg["unit_wall"] += float(r.get("wall", 0.0))
+        agg.setdefault("slowest", []).append((float(r.get("wall", 0.0)), str(r.get("uid"))))
         for k, v in (r.get("counters") or {}).items():
             agg["counters"][k] = agg["counters"].get(k, 0) + v
         for k, v in (r.get("maxima") or {}).items():
@@ -175,6 +176,8 @@ def finish(mod, units, results, tier, seed, t0, extra_cov=None, reach_spec=None)
         print(f"    {k} = {agg['counters'][k]}")
     for k in sorted(agg["maxima"]):
         print(f"    max {k} = {agg['maxima'][k]:.3g}")
+    slow = sorted(agg.get("slowest", []), reverse=True)[:3]
+    print("    slowest units: " + ", ".join(f"{u}={w:.1f}s" for w, u in slow))
     if shortfalls and code == INCONCLUSIVE:
         print(f"INCONCLUSIVE property={prop}: " + "; ".join(shortfalls))
         for e in agg["errors"][:3]:
